@@ -141,8 +141,47 @@ def hashable_term(term: Any) -> bool:
     return False
 
 
+def positions(term: Any, prefix: tuple[int, ...] = ()) -> list[tuple[tuple[int, ...], Any]]:
+    """every subterm position of a term (the root included): (position, subterm)"""
+    k = term[0]
+    out: list[tuple[tuple[int, ...], Any]] = [(prefix, term)]
+    if k in ("seq", "set", "frozenset", "vtuple", "optional"):
+        out += positions(term[1], (*prefix, 0))
+    elif k == "map":
+        out += positions(term[1], (*prefix, 0)) + positions(term[2], (*prefix, 1))
+    elif k in ("tuple", "union"):
+        for i, t in enumerate(term[1]):
+            out += positions(t, (*prefix, i))
+    elif k in ("generic", "palias"):
+        for i, t in enumerate(term[2]):
+            out += positions(t, (*prefix, i))
+    return out
+
+
+def abstract_at(term: Any, pos: tuple[int, ...], var: Any) -> Any:
+    """the term with the subterm at `pos` replaced by `var`"""
+    if not pos:
+        return var
+    k, i, rest = term[0], pos[0], pos[1:]
+    if k in ("seq", "set", "frozenset", "vtuple", "optional"):
+        return (k, abstract_at(term[1], rest, var))
+    if k == "map":
+        return (k, abstract_at(term[1], rest, var), term[2]) if i == 0 else (k, term[1], abstract_at(term[2], rest, var))
+    if k in ("tuple", "union"):
+        return (k, [abstract_at(t, rest, var) if j == i else t for j, t in enumerate(term[1])])
+    if k in ("generic", "palias"):
+        return (k, term[1], [abstract_at(t, rest, var) if j == i else t for j, t in enumerate(term[2])])
+    raise ValueError(term)
+
+
+def mentions(term: Any, kind: str) -> bool:
+    return any(t[0] == kind for _, t in positions(term))
+
+
 def render(term: Any) -> str:
     k = term[0]
+    if k == "var":
+        return term[1]
     if k == "none":
         return "None"
     if k == "prim":
